@@ -252,10 +252,13 @@ func runC02(c *eng.Ctx) {
 		c.Check(len(tt) > 0, "only-table-files", look, f, "only files of type table can lose their keep status", "")
 		// the three sources feed the map that is looked up
 		lm := look.(*ssa.Lookup).X
+		nFeed := 0
 		for _, b := range eng.BlocksT(f) {
 			for _, in := range b.Instrs {
 				if mu, ok := in.(*ssa.MapUpdate); ok {
-					c.Check(eng.SameValue(mu.Map, lm) || mu.Map == lm, "feeds-keep-set:"+p.InstrPos(in), in, f, "every collected number goes into the map the deletion consults", "")
+					nFeed++
+					same := eng.SameValue(mu.Map, lm) || mu.Map == lm || eng.DependsOn(lm, func(x ssa.Value) bool { return x == mu.Map || eng.SameValue(x, mu.Map) }) || eng.DependsOn(mu.Map, func(x ssa.Value) bool { return x == lm || eng.SameValue(x, lm) })
+					c.Check(same, fmt.Sprintf("feeds-keep-set[%d]", nFeed), in, f, "every collected number goes into the map the deletion consults", "updates "+p.Desc(mu.Map)+", consults "+p.Desc(lm))
 				}
 			}
 		}
